@@ -239,7 +239,12 @@ def known_match(prop, text):
 
 def write_replay(prop, payload):
     os.makedirs(REPLAYS, exist_ok=True)
-    path = os.path.join(REPLAYS, "%s-%d-%d.json" % (prop, int(time.time()), os.getpid()))
+    k = 0
+    while True:
+        path = os.path.join(REPLAYS, "%s-%d-%d-%d.json" % (prop, int(time.time()), os.getpid(), k))
+        if not os.path.exists(path):
+            break
+        k += 1
     payload = dict(payload)
     payload["property"] = prop
     with open(path, "w") as f:
